@@ -75,6 +75,12 @@ func c11Gen(seed uint64, run int, tier string) *Case {
 			if ti == wtWalk {
 				cnt = r.Intn(4)
 			}
+			if ci == 0 && (mode == PHold || mode == PAsync) && r.Pct(25) {
+				// a second request under the same tag waits behind the parked one when the connection goes
+				c.Ops = append(c.Ops, reqOp(ci, ti, i, mode, r.Pct(15), cnt, r.Pct(40), 0))
+				c.Ops = append(c.Ops, sharedReqOp(ci, r.Intn(nWTypes), i, PNow, false, r.Pick(0, 1, 3), r.Pct(40), 0))
+				continue
+			}
 			if ci == 0 && c.Cfg["flushop"] != 0 && (mode == PHold || mode == PAsync) && r.Pct(60) {
 				// cancelled through the implementation's FlushOp while it is parked, before the connection goes
 				c.Ops = append(c.Ops, reqOp(ci, ti, i, mode, r.Pct(15), cnt, r.Pct(40), 1))
